@@ -207,6 +207,14 @@ def dtcwt(rep, pid, tier, what):
             for k, q in enumerate(qs):
                 for kb, b in enumerate(bi):
                     cases.append((b, q, 1160 + 4 * k + 2 * kb, 300 + 2 * k, 4, 1, 1))
+        # a count K in an ordering comparison of the library's source ("r > 8 * m", "more than 16 ..."; none on the pinned tree):
+        # axes longer than K times the longest filter at level 2, K+1 and 2K+3 channels, for every q-shift family
+        from . import census
+        census.report(rep)
+        for K in census.small_counts()[:3]:
+            for k, q in enumerate(qs):
+                cases.append((bi[k % 4], q, min(2 * (K * 20 + 6), 2600), 64 + 2 * k, 2, 1, 1))
+            cases += [("near_sym_a", "qshift_a", 16, 12, 2, 1, K + 1), ("near_sym_b", "qshift_c", 12, 16, 2, 1, 2 * K + 3)]
         # ... and WIDE inputs: more channels than any slab / group size a code path may process at once (small images)
         cases += [("near_sym_a", "qshift_a", 20, 24, 3, 1, 67), ("near_sym_b", "qshift_b", 16, 12, 2, 1, 131)]
         if tier != "quick":
